@@ -107,6 +107,28 @@ VARIANTS: list[Variant] = [
     V("C20-a", "C20", "R1", "src/ramses_rf/binding_fsm.py", "            await asyncio.wait_for(asyncio.shield(self._fut), timeout)", "            await asyncio.wait_for(self._fut, timeout)", "reversal of the F12 fix (shield removed)"),
     V("C20-b", "C20", "R1", "src/ramses_rf/binding_fsm.py", "        if self._fut.done():  # e.g. a duplicate pkt (devices Tx each pkt x3)\n            return\n        if self.is_phase(msg._pkt, self._expected_pkt_phase):\n            self._fut.set_result(msg)\n\n\nclass _DevIsReadyToSendCmd", "        if self.is_phase(msg._pkt, self._expected_pkt_phase):\n            self._fut.set_result(msg)\n\n\nclass _DevIsReadyToSendCmd", "reversal of the F13 fix in _DevIsWaitingForMsg.rcvd_msg"),
     V("C20-c", "C20", "R2", "src/ramses_rf/binding_fsm.py", "    _next_ctx_state: type[BindStateBase] = SuppIsReadyToSendConfirm\n", "    _next_ctx_state: type[BindStateBase] = SuppSendOfferWaitForAccept\n", "supplicant success chain loops back into a binding state"),
+    # ---- rules added in the third session (each is the reversal of a fix or a one-instance break of the new rule)
+    V("C01-f", "C01", "R1", "src/ramses_tx/address.py", "            addrs[2] not in (NON_DEV_ADDR, ALL_DEV_ADDR)\n            and addrs[0] == NON_DEV_ADDR\n            and addrs[1] == NON_DEV_ADDR\n", "            addrs[0] == NON_DEV_ADDR\n            and addrs[1] == NON_DEV_ADDR\n", "an all-blank address set passes the strict check: device_addrs[0] raises IndexError"),
+    V("C02-d", "C02", "R1", "src/ramses_tx/command.py", "        payload = parts.pop()[:96]  # 48 bytes, as hex", "        payload = parts.pop()[:48]", "reversal of the F28 fix"),
+    V("C02-e", "C02", "R5", "src/ramses_tx/logger.py", "        if hasattr(rv, \"_dtm\"):  # extra is a Packet's __dict__: its timestamp is _dtm\n            ct = rv._dtm.timestamp()", "        if hasattr(rv, \"dtm\"):\n            ct = rv.dtm.timestamp()", "reversal of the F27 fix"),
+    V("C02-f", "C02", "R5", "src/ramses_tx/logger.py", "        extra = dict(extra or {})  # work with a copy\n", "        extra = extra or {}\n", "makeRecord pops _frame from the packet's own __dict__"),
+    V("C02-g", "C02", "R3", "src/ramses_tx/command.py", "        if seqn is None or seqn in (\"\", \"-\", \"--\", \"---\"):", "        if not seqn or seqn in (\"-\", \"--\", \"---\"):", "integer seqn 0 printed as ---"),
+    V("C03-e", "C03", "R3", "src/ramses_tx/command.py", "{overrun:02X}", "{overrun:02d}", "a payload octet formatted in decimal"),
+    V("C04-e", "C04", "R3", "src/ramses_tx/helpers.py", "    if is_dst:\n        dtm_str = f\"{int(dtm_str[:2], 16) | 0x80:02X}\" + dtm_str[2:]\n    return dtm_str if incl_seconds else dtm_str[2:]", "    if not incl_seconds:\n        dtm_str = dtm_str[2:]\n    if is_dst:\n        dtm_str = f\"{int(dtm_str[:2], 16) | 0x80:02X}\" + dtm_str[2:]\n    return dtm_str", "DST flag or-ed into the minutes octet when the seconds are dropped first"),
+    V("C06-c", "C06", "R4", "src/ramses_tx/frame.py", "            self._ctx_ = self._idx + self.payload[10:12]", "            self._ctx_ = self.payload[:2] + self.payload[10:12]", "0404 context without the DHW/zone discriminator"),
+    V("C08-d", "C08", "R3", "src/ramses_tx/protocol_fsm.py", "            self._multiplier = min(3, old_val + 1)", "            self._multiplier = min(3, self._multiplier + 1)", "the increment cancels the optimistic decrement: waits stop doubling"),
+    V("C10-d", "C10", "R7", "src/ramses_rf/gateway.py", "        finally:  # always resume, incl. if the above raises/is cancelled\n", "        finally:  # always resume, incl. if the above raises/is cancelled\n            self._enforce_known_list = bool(self._enforce_known_list)\n", "the gateway's enforcement flag is written outside the constructor"),
+    V("C11-d", "C11", "R6", "src/ramses_tx/transport.py", "        elapsed, self._timestamp = timestamp - self._timestamp, timestamp\n", "        elapsed = timestamp - self._timestamp\n", "the MQTT refill stamp is never advanced"),
+    V("C12-d", "C12", "R5", "src/ramses_rf/system/zones.py", "            _LOGGER.debug(\"Promoted a Zone: %s (%s)\", self.id, self.__class__)\n\n            self._setup_discovery_cmds()\n", "            _LOGGER.debug(\"Promoted a Zone: %s (%s)\", self.id, self.__class__)\n", "zone promotion no longer rebuilds the probe table"),
+    V("C13-d", "C13", "R2", "src/ramses_rf/entity_base.py", "        if (domain_id or zone_idx) and msg_dict.get(idx) != val:\n            return None  # the (latest) msg is for another domain/zone: value is unknown\n", "        assert (not domain_id and not zone_idx) or (\n            msg_dict.get(idx) == val\n        ), f\"{msg_dict} < Coding error: key={idx}, val={val}\"\n", "reversal of the F29 fix"),
+    V("C13-e", "C13", "R4", "src/ramses_rf/dispatcher.py", "        and this.src == prev.src\n", "        and this.src.type == prev.src.type\n", "array fragments merged across devices of the same type"),
+    V("C14-c", "C14", "R7", "src/ramses_rf/system/heat.py", "            for k, v in self._heat_demands.items()\n            if not v._expired\n", "            for k, v in self._heat_demands.items()\n", "reversal of the F26 fix in System.heat_demands"),
+    V("C14-d", "C14", "R5", "src/ramses_rf/entity_base.py", "            msg = max(msgs) if msgs else None", "            msg = msgs[0] if msgs else None", "first-found instead of newest among several codes"),
+    V("C14-e", "C14", "R6", "src/ramses_tx/message.py", "        if self.code == Code._1F09 and self.verb != RQ:  # sync_cycle is a special case", "        if self.code == Code._1F09 and self.verb == I_:  # sync_cycle is a special case", "RP/W 1F09 fall through to 'cannot expire'"),
+    V("C14-f", "C14", "R4", "src/ramses_rf/entity_base.py", "            self._msgz_[msg.code][msg.verb][msg._pkt._ctx] = msg", "            self._msgz_[msg.code][msg.verb][msg._pkt._idx] = msg", "per-context store keyed by the index only"),
+    V("C15-c", "C15", "R1", "src/ramses_rf/entity_base.py", "        parent._add_child(self, child_id=child_id, is_sensor=is_sensor)\n        # parent.childs.append(self)\n        # parent.child_by_id[self.id] = self\n\n        self._child_id = child_id\n        self._parent = parent\n", "        self._child_id = child_id\n        self._parent = parent\n\n        parent._add_child(self, child_id=child_id, is_sensor=is_sensor)\n", "the child records the bond before the parent accepts it"),
+    V("C17-c", "C17", "R5", "src/ramses_rf/system/schedule.py", "        payload_set[payload[SZ_FRAG_NUMBER] - 1] = payload\n        if None in payload_set or self._proc_payload_set(", "        if payload_set[payload[SZ_FRAG_NUMBER] - 1] is not None:\n            return payload_set\n        payload_set[payload[SZ_FRAG_NUMBER] - 1] = payload\n        if None in payload_set or self._proc_payload_set(", "a repeated fragment is discarded in favour of the old copy"),
+    V("C18-d", "C18", "R3", "src/ramses_rf/system/schedule.py", "        if did_io or self._global_ver > self._sched_ver:", "        if did_io or self._global_ver >= self._sched_ver:", "force_io answered from the cached change counter"),
     V("C20-d", "C20", "R5", "src/ramses_rf/binding_fsm.py", "            return cmd.verb == W_ and cmd.dst is not cmd.src", "            return cmd.verb == I_ and cmd.dst is not cmd.src", "ACCEPT phase test overlaps TENDER/AFFIRM"),
 ]
 
